@@ -54,6 +54,8 @@ func toBytes(xs []int) []byte {
 	return out
 }
 
+var thoroughTier = os.Getenv("VERIF_TIER") == "thorough"
+
 func envU32(name string) uint32 {
 	v, _ := strconv.ParseUint(os.Getenv(name), 10, 32)
 	return uint32(v)
@@ -80,13 +82,25 @@ func main() {
 				net = append(net, b)
 			}
 		}
-		tj.WriteJSON(os.Args[2], map[string]interface{}{"bases": net, "genesis_ts": w.GenesisTS})
+		rw, err := w.setupRPC()
+		if err != nil {
+			die(2, "rpc set-up: %v", err)
+		}
+		tj.WriteJSON(os.Args[2], map[string]interface{}{"bases": net, "genesis_ts": w.GenesisTS, "methods": rw.methodModel()})
 	case "run":
-		supervise(os.Args[2], os.Args[3])
+		supervise("child", os.Args[2], os.Args[3])
 	case "child":
 		child(os.Args[2], os.Args[3], os.Args[4], os.Args[5])
+	case "scen":
+		supervise("scenchild", os.Args[2], os.Args[3])
+	case "scenchild":
+		scenChild(os.Args[2], os.Args[3], os.Args[4], os.Args[5])
 	case "one":
-		one(os.Args[2], os.Args[3])
+		out := ""
+		if len(os.Args) > 4 {
+			out = os.Args[4]
+		}
+		one(os.Args[2], os.Args[3], out)
 	case "replay":
 		replay(os.Args[2], os.Args[3])
 	default:
@@ -110,7 +124,7 @@ func limitMemory() {
 var frontLine = map[string]bool{"blockchain.NewBlock": true, "blockchain.NewBlockHeader": true, "blockchain.NewTransaction": true,
 	"blockchain.NewBlockAsset": true, "p2p.decodeResponse": true, "sync.resp.lastBlock": true, "sync.resp.highestCommonBlock": true,
 	"sync.resp.blocksFromId": true, "sync.decodeRequests": true, "consensus.blockValidator": true, "txpool.transactionValidator": true,
-	"smt.Verify(bytes)": true, "rmt.VerifyProof(bytes)": true, "rmt.CalculateRootFromUpdateData(bytes)": true, "decode:p2p.Message": true,
+	"smt.Verify(bytes)": true, "rmt.VerifyProof(bytes)": true, "smt.Verify(bytes,keys-of-proof)": true, "rmt.VerifyProof(bytes,queries-by-count)": true, "rmt.CalculateRootFromUpdateData(bytes)": true, "decode:p2p.Message": true,
 	"decode:p2p.Request": true, "strict:consensus.EventPostSingleCommits": true, "decode:sync.GetHighestCommonBlockRequest": true,
 	"decode:sync.GetBlocksFromIDRequest": true, "decode:blockchain.AggregateCommit": true}
 
@@ -317,7 +331,11 @@ func child(casesPath, outPath, slotPath, disabledJSON string) {
 		if !thorough {
 			slowEvery = 2
 		}
-		i := 0
+		// (the phase of the thinning follows the seed: different seeds give the stateful entries the other half)
+		i := int(seed % 2)
+		if i < 0 {
+			i = -i
+		}
 		mutations(b.raw, others, rng, thorough, func(m mutant) {
 			nMut++
 			i++
@@ -378,7 +396,7 @@ func child(casesPath, outPath, slotPath, disabledJSON string) {
 	runtime.ReadMemStats(&m1)
 	per := float64(m1.TotalAlloc-m0.TotalAlloc) / float64(calls+1)
 	info["exhaustive_calls"], info["exhaustive_wall_s"], info["exhaustive_alloc_per_call"] = calls, wall.Seconds(), per
-	if per > 16384 {
+	if per > 65536 && calls > 100000 {
 		r.violation("alloc:exhaustive-sweep", fmt.Sprintf("the sweep over all strings of length <= 3 allocated %.0f bytes per call on average", per), es[0], nil)
 	}
 	// stateful network-facing entries: all strings up to length 2, measured one by one
@@ -521,7 +539,8 @@ func child(casesPath, outPath, slotPath, disabledJSON string) {
 	mark("rpc", t)
 
 	rep := r.report()
-	rep.Errors = errs
+	rep.Errors = append(rep.Errors, errs...)
+	rep.Errors = append(rep.Errors, w.Notes...)
 	rep.Info = info
 	info["phase_seconds"] = phase
 	info["wall_s"] = time.Since(t0).Seconds()
@@ -533,21 +552,29 @@ func child(casesPath, outPath, slotPath, disabledJSON string) {
 
 // ---------------------------------------------------------------------------------------- supervisor
 
-func entryNames() []string {
+func entryList() []*Entry {
 	// the entry list does not depend on the world's content, only on the registry: build it on a small world
 	w, err := newWorld(envU32("C09_GENESIS_TS"), false)
 	if err != nil {
 		die(3, "world: %v", err)
 	}
-	names := []string{}
-	for _, e := range buildEntries(w) {
-		names = append(names, e.Name)
+	return buildEntries(w)
+}
+
+// disableKey: a scenario entry (one with a Suffix) is switched off per case (all inputs with the same suffix), every
+// other entry as a whole
+func disableKey(e *Entry, in []byte) string {
+	if e.Suffix != nil {
+		return e.Name + "|" + e.Suffix(in)
 	}
-	return names
+	return e.Name
 }
 
 func crashReason(stderr string) string {
 	for _, l := range strings.Split(stderr, "\n") {
+		if strings.Contains(l, "out of memory") || strings.Contains(l, "cannot allocate memory") {
+			return "out-of-memory"
+		}
 		if strings.HasPrefix(l, "fatal error: ") {
 			return strings.ReplaceAll(strings.TrimPrefix(l, "fatal error: "), " ", "-")
 		}
@@ -557,11 +584,61 @@ func crashReason(stderr string) string {
 		if strings.Contains(l, "SIGSEGV") || strings.Contains(l, "SIGBUS") || strings.Contains(l, "SIGABRT") {
 			return "signal"
 		}
+		if strings.HasPrefix(l, "panic: ") {
+			// a panic on a goroutine the code under test started (recover() of the caller does not see it)
+			return "panic-in-goroutine"
+		}
 	}
 	return "killed"
 }
 
-func supervise(casesPath, outPath string) {
+// panicSite: top lisk-engine frame of the goroutine that ended the process (for the key of a crash by panic).
+func panicSite(stderr string) string {
+	i := strings.Index(stderr, "[running]:")
+	if i < 0 {
+		return ""
+	}
+	for _, l := range strings.Split(stderr[i:], "\n") {
+		if strings.HasPrefix(l, "github.com/LiskHQ/lisk-engine/") && !strings.HasPrefix(l, "\t") {
+			l = strings.TrimPrefix(l, "github.com/LiskHQ/lisk-engine/")
+			if j := strings.LastIndex(l, "("); j > 0 {
+				l = l[:j]
+			}
+			return l
+		}
+	}
+	return ""
+}
+
+const oneCap = 8 << 30 // address-space cap of the pinning run of a call suspected of exhausting the memory
+
+// runOne executes one noted call alone in a fresh process; cap > 0 lowers the address-space limit of that process.
+// Returns (the process survived, its stderr, the violations it reported itself).
+func runOne(self, name string, in []byte, cap uint64) (bool, string, []Violation) {
+	dir, err := os.MkdirTemp("", "c09one")
+	if err != nil {
+		return true, "", nil
+	}
+	defer os.RemoveAll(dir)
+	out := dir + "/one.json"
+	inf := dir + "/in.hex"
+	os.WriteFile(inf, []byte(hex.EncodeToString(in)), 0o600) //nolint
+	one := exec.Command(self, "one", name, "@"+inf, out)
+	one.Env = append(os.Environ(), fmt.Sprintf("C09_ONE_CAP=%d", cap))
+	var ob bytes.Buffer
+	one.Stderr = &tailWriter{buf: &ob, max: 1 << 16}
+	e1 := one.Run()
+	rep := &Report{}
+	if b, err := os.ReadFile(out); err == nil {
+		json.Unmarshal(b, rep) //nolint
+	}
+	return e1 == nil, ob.String(), rep.Violations
+}
+
+// supervise runs the child (mode "child" = the fuzzing run, "scenchild" = the scenario run) until it completes.
+// A child that dies (fatal runtime error, out of memory, a panic on a goroutine of the code under test) has noted the
+// calls in flight in the slot file: each is re-executed alone in a fresh process to find the one that ends it.
+func supervise(mode, casesPath, outPath string) {
 	self, _ := os.Executable()
 	dir, err := os.MkdirTemp("", "c09slots")
 	if err != nil {
@@ -571,14 +648,17 @@ func supervise(casesPath, outPath string) {
 	slotPath := dir + "/slots"
 	disabled := map[string]string{}
 	crashes := []Violation{}
-	var names []string
-	for attempt := 0; attempt < 8; attempt++ {
+	var names []*Entry
+	gts := envU32("C09_GENESIS_TS")
+	completed := false
+	lastErr := ""
+	for attempt := 0; attempt < 10 && !completed; attempt++ {
 		s, err := openSlots(slotPath, true)
 		if err != nil {
 			die(3, "slots: %v", err)
 		}
 		dj, _ := json.Marshal(disabled)
-		cmd := exec.Command(self, "child", casesPath, outPath, slotPath, string(dj))
+		cmd := exec.Command(self, mode, casesPath, outPath, slotPath, string(dj))
 		var eb bytes.Buffer
 		cmd.Stderr = &tailWriter{buf: &eb, max: 1 << 16}
 		cmd.Stdout = os.Stdout
@@ -586,6 +666,7 @@ func supervise(casesPath, outPath string) {
 		err = cmd.Run()
 		if err == nil {
 			if _, e2 := os.Stat(outPath); e2 == nil {
+				completed = true
 				break
 			}
 		}
@@ -593,39 +674,98 @@ func supervise(casesPath, outPath string) {
 			die(3, "child: %s", eb.String())
 		}
 		reason := crashReason(eb.String())
+		site := panicSite(eb.String())
 		if names == nil {
-			names = entryNames()
+			names = entryList()
 		}
 		found := false
+		add := func(v Violation, dk, why string) {
+			crashes = append(crashes, v)
+			disabled[dk] = why
+			found = true
+		}
+		rp := func(name string, in []byte) map[string]interface{} {
+			return map[string]interface{}{"entry": name, "input_hex": hex.EncodeToString(in), "genesis_ts": gts}
+		}
 		for _, pc := range s.pending() {
 			if pc.Entry >= len(names) || !pc.Whole {
 				continue
 			}
-			name := names[pc.Entry]
-			one := exec.Command(self, "one", name, hex.EncodeToString(pc.In))
-			var ob bytes.Buffer
-			one.Stderr = &tailWriter{buf: &ob, max: 1 << 16}
-			if e1 := one.Run(); e1 != nil {
-				rs := crashReason(ob.String())
-				crashes = append(crashes, Violation{"crash:" + name + ":" + rs, fmt.Sprintf("%s kills the process (%s; recover() does not help) on a %d-byte input", name, rs, len(pc.In)),
-					map[string]interface{}{"entry": name, "input_hex": hex.EncodeToString(pc.In), "genesis_ts": envU32("C09_GENESIS_TS")}})
-				disabled[name] = "kills the process: " + rs
-				found = true
+			ent := names[pc.Entry]
+			name, dk := ent.Name, disableKey(ent, pc.In)
+			full := name + ent.suffix(pc.In) // (entry and, for scenario entries, the case)
+			if _, off := disabled[dk]; off {
+				continue
+			}
+			alive, oerr, own := runOne(self, name, pc.In, 0)
+			switch {
+			case !alive:
+				rs := crashReason(oerr)
+				if rs == "out-of-memory" {
+					add(Violation{"alloc:" + full, fmt.Sprintf("%s exhausts the memory of the process (fatal error: out of memory; recover() does not help) on a %d-byte input", full, len(pc.In)), rp(name, pc.In)},
+						dk, "exhausts the memory")
+				} else {
+					key := "crash:" + full + ":" + rs
+					if st := panicSite(oerr); rs == "panic-in-goroutine" && st != "" {
+						key += ":" + st
+					}
+					add(Violation{key, fmt.Sprintf("%s kills the process (%s; recover() does not help) on a %d-byte input", full, rs, len(pc.In)), rp(name, pc.In)},
+						dk, "kills the process: "+rs)
+				}
+			case len(own) > 0:
+				// alone it survives, but it is the call that breaks a bound (e.g. two live copies of a huge allocation ended the run)
+				for _, v := range own {
+					add(v, dk, "ended the run: "+v.Key)
+				}
+			case reason == "out-of-memory":
+				// pin it: the same call under a lower address-space cap, after a control (the empty input under the same cap)
+				if okc, _, _ := runOne(self, name, []byte{}, oneCap); okc {
+					if ok2, e2, _ := runOne(self, name, pc.In, oneCap); !ok2 && crashReason(e2) == "out-of-memory" {
+						add(Violation{"alloc:" + full, fmt.Sprintf("%s exhausts an address space of %d GiB on a %d-byte input (the run died of out-of-memory with this call in flight)", full, oneCap>>30, len(pc.In)), rp(name, pc.In)},
+							dk, "exhausts the memory")
+					}
+				}
 			}
 		}
 		if !found {
-			die(3, "the fuzzing process died (%s) and no single noted call reproduces it:\n%s", reason, tail(eb.String(), 1500))
+			if len(crashes) > 0 {
+				lastErr = fmt.Sprintf("the run died again (%s%s) and no single noted call reproduces it", reason, site)
+				break
+			}
+			die(3, "the fuzzing process died (%s %s) and no single noted call reproduces it:\n%s", reason, site, tail(eb.String(), 1500))
 		}
 	}
-	b, err := os.ReadFile(outPath)
-	if err != nil {
-		die(3, "no result after repeated crashes: %v", disabled)
-	}
 	rep := &Report{}
-	if err := json.Unmarshal(b, rep); err != nil {
-		die(3, "result: %v", err)
+	if completed {
+		b, err := os.ReadFile(outPath)
+		if err != nil {
+			die(3, "no result: %v", err)
+		}
+		if err := json.Unmarshal(b, rep); err != nil {
+			die(3, "result: %v", err)
+		}
+	} else {
+		// the run never completed, but what ended it was observed on the real code: report that (the coverage of the run is void)
+		if len(crashes) == 0 {
+			die(3, "no result after repeated crashes: %v %s", disabled, lastErr)
+		}
+		rep = &Report{PerEntry: map[string]int64{}, PerOrigin: map[string]int64{}, ViolationCounts: map[string]int{}, Disabled: disabled,
+			Info: map[string]interface{}{"incomplete": "the run did not complete: " + lastErr}, Incomplete: true}
 	}
-	rep.Violations = append(rep.Violations, crashes...)
+	if rep.ViolationCounts == nil {
+		rep.ViolationCounts = map[string]int{}
+	}
+	seen := map[string]bool{}
+	for _, v := range rep.Violations {
+		seen[v.Key] = true
+	}
+	for _, v := range crashes {
+		if !seen[v.Key] {
+			seen[v.Key] = true
+			rep.Violations = append(rep.Violations, v)
+		}
+		rep.ViolationCounts[v.Key]++
+	}
 	sort.Slice(rep.Violations, func(i, j int) bool { return rep.Violations[i].Key < rep.Violations[j].Key })
 	tj.WriteJSON(outPath, rep)
 }
@@ -656,9 +796,20 @@ func tail(s string, n int) string {
 	return s
 }
 
-// one: a single call in a fresh process (no supervisor): exit status tells whether the process survives.
-func one(name, inHex string) {
+// one: a single call in a fresh process (no supervisor): exit status tells whether the process survives; the violations
+// the call reports itself (allocation, deadline, panic) go to the result file.
+func one(name, inHex, outPath string) {
 	limitMemory()
+	if c, _ := strconv.ParseUint(os.Getenv("C09_ONE_CAP"), 10, 64); c > 0 {
+		syscall.Setrlimit(syscall.RLIMIT_AS, &syscall.Rlimit{Cur: c, Max: c}) //nolint
+	}
+	if strings.HasPrefix(inHex, "@") {
+		b, err := os.ReadFile(inHex[1:])
+		if err != nil {
+			die(3, "input: %v", err)
+		}
+		inHex = strings.TrimSpace(string(b))
+	}
 	in, err := hex.DecodeString(inHex)
 	if err != nil {
 		die(3, "hex: %v", err)
@@ -672,6 +823,9 @@ func one(name, inHex string) {
 	for _, e := range es {
 		if e.Name == name {
 			fmt.Fprintln(os.Stderr, "verdict:", r.Call(e, in, "one", false))
+			if outPath != "" {
+				tj.WriteJSON(outPath, r.report())
+			}
 			os.Exit(0)
 		}
 	}
@@ -690,6 +844,9 @@ func replay(path, outPath string) {
 			Entry     string `json:"entry"`
 			InputHex  string `json:"input_hex"`
 			GenesisTS uint32 `json:"genesis_ts"`
+			Scenario  string `json:"scenario"` // "" one call; "leak" two batches of calls; "amp" growth with the size of a repeated field
+			Amp       string `json:"amp"`
+			K         int    `json:"k"`
 		} `json:"replay"`
 	}
 	if err := json.Unmarshal(b, &rec); err != nil || rec.Replay.Entry == "" {
@@ -708,6 +865,11 @@ func replay(path, outPath string) {
 	var v string
 	found := false
 	for _, e := range es {
+		if e.Name == rec.Replay.Entry && rec.Replay.Scenario != "" {
+			found = true
+			v = replayScenario(w, r, es, e, rec.Replay.Scenario, rec.Replay.Amp, rec.Replay.K)
+			continue
+		}
 		if e.Name == rec.Replay.Entry {
 			v = r.Call(e, in, "replay", false)
 			if len(in) > 0 {
